@@ -259,8 +259,8 @@ class Ellipse(Shape2D):
         return np.logical_and(
             np.all(points / scale <= 1, axis=-1),
             # At present ellipsoids are not orientable, so the z position must
-            # match exactly.
-            np.isclose(points[:, 2], 0),
+            # match exactly (up to rounding, relative to the size of the ellipse).
+            np.isclose(points[:, 2], 0, atol=1e-8 * max(self.a, self.b)),
         )
 
     def __repr__(self):
